@@ -265,14 +265,25 @@ def _odp_shape(k, s, c):
             + ("".join(f"<text:p>{_inl(p, c)}</text:p>" for p in cell) or "<text:p/>")
             + "</table:table-cell>" for j, cell in enumerate(row)) + "</table:table-row>" for row in s[1])
         ncols = max(len(r) for r in s[1])
-        return (f'<draw:frame {y}><table:table><table:table-column table:number-columns-repeated="{ncols}"/>{rows}'
-                "</table:table></draw:frame>")
+        return _odp_group(k, f'<draw:frame {y}><table:table><table:table-column table:number-columns-repeated="{ncols}"/>'
+                             f"{rows}</table:table></draw:frame>")
     cls = {"title": ' presentation:class="title"', "body": ' presentation:class="outline"', "text": ""}[kind]
     paras = [s[1]] if kind == "title" else s[1]
     # paragraph styles as presentation programs name them (the extractor classifies title / body paragraphs by style name)
     pst = {"title": ' text:style-name="TitleText"', "body": ' text:style-name="BodyText"', "text": ""}[kind]
-    return (f'<draw:frame{cls} {y}><draw:text-box>' + "".join(f"<text:p{pst}>{_inl(p, c)}</text:p>" for p in paras)
-            + "</draw:text-box></draw:frame>")
+    frame = (f'<draw:frame{cls} {y}><draw:text-box>' + "".join(f"<text:p{pst}>{_inl(p, c)}</text:p>" for p in paras)
+             + "</draw:text-box></draw:frame>")
+    return _odp_group(k, frame) if kind == "text" else frame
+
+
+def _odp_group(k, frame):
+    """Free text boxes and tables at positions 1, 2 (mod 3) sit in a shape group / a group inside a group (draw:g):
+    grouping is a drawing aid, the frames keep their own positions and are content of the page like any other."""
+    if k % 3 == 1:
+        return f'<draw:g draw:name="Group{k}">{frame}</draw:g>'
+    if k % 3 == 2:
+        return f'<draw:g draw:name="Group{k}"><draw:g>{frame}</draw:g></draw:g>'
+    return frame
 
 
 def write_odp(deck: dict, kind="odp") -> bytes:
